@@ -365,11 +365,11 @@ def run(chk: core.Check):
     chk.notes["boundary_mined"] = len(mined)
     stream("boundary", mined, impl_api)
     rng = core.rng_for(chk.seed, "C02/table")
-    stream("table-api", [gen_table_case(rng, nmax, 4) for _ in range(N)], impl_api)
+    stream("table-api", core.Gen(lambda r, k: gen_table_case(r, k, 4), rng, nmax, N), impl_api)
     rng = core.rng_for(chk.seed, "C02/direct")
-    stream("table-direct", [gen_table_case(rng, nmax, 4) for _ in range(N // 3)], impl_direct)
+    stream("table-direct", core.Gen(lambda r, k: gen_table_case(r, k, 4), rng, nmax, N // 3), impl_direct)
     rng = core.rng_for(chk.seed, "C02/builtin")
-    chk.run_stream("builtin", [gen_builtin_case(rng, min(nmax, 20)) for _ in range(N // 3)], impl_builtin,
+    chk.run_stream("builtin", core.Gen(gen_builtin_case, rng, min(nmax, 20), N // 3), impl_builtin,
                    oracle=oracle_builtin, skip=skip_builtin, nontrivial=nontriv, site="PELT/builtin",
                    describe=lambda c: c)
     return chk.finish(shrinker=shrinker)
